@@ -1118,6 +1118,23 @@ func (s *Sim) fillCode(a *Action, bs *BState, f map[string]string, kind string) 
 				break
 			}
 		}
+	case "cur", "cur_ws", "cur_sep": // exactly the current period's code of the subject's secret — verbatim, with
+		// surrounding whitespace, with a separator in the middle (other spellings of the SAME code)
+		a.Resolved, a.Secret = "wrong", "000006"
+		if sub != nil && kind == "totp" {
+			if u := s.W.Store.Peek(sub.PID); u != nil && u.TOTPSecretKey != "" {
+				c := TOTPNow(u.TOTPSecretKey)
+				a.Resolved = a.Cls
+				switch a.Cls {
+				case "cur":
+					a.Secret = c
+				case "cur_ws":
+					a.Secret = []string{c + " ", " " + c, c + "\n", "\t" + c + " "}[s.R.Intn(4)]
+				default:
+					a.Secret = c[:3] + []string{" ", "-"}[s.R.Intn(2)] + c[3:]
+				}
+			}
+		}
 	case "emptysecret": // the current code of the EMPTY secret (anybody can compute it)
 		a.Secret = TOTPAt("", 0)
 	case "stale": // a far-away step of the right secret
